@@ -105,81 +105,7 @@ def run(p, report, tier):
     if not infs:
         report.add("R20.2", ent, "-inf for candidates outside the subset", f"{sw.file}:{sw.node.lineno}", False,
                    detail="no -inf store into the returned utilities")
-    # ---- roles (recovered from dataflow, not from variable names)
-    Xn = yn = None
-    for n in ast.walk(sw.node):
-        if isinstance(n, ast.Assign) and isinstance(n.value, ast.Call) and c01.callname(n.value) == "_validate_data" \
-                and isinstance(n.targets[0], ast.Tuple) and len(n.targets[0].elts) >= 2:
-            Xn, yn = n.targets[0].elts[0].id, n.targets[0].elts[1].id
-    inner = [n for n in ast.walk(sw.node) if isinstance(n, ast.Call) and isinstance(n.func, ast.Attribute)
-             and n.func.attr == "query" and "query_strategy" in ast.unparse(n.func.value)]
-    if not inner or Xn is None:
-        raise AnalysisError("SubSamplingWrapper.query: inner query / validated inputs not found")
-    inner = inner[0]
-    kw = kwmap(inner)
-    # result of the inner query and the picked indices unpacked from it
-    res_names = set()
-    for n in ast.walk(sw.node):
-        if isinstance(n, ast.Assign) and n.value is inner:
-            res_names |= {t.id for t in n.targets if isinstance(t, ast.Name)}
-    pick_names = set(res_names)
-    for n in ast.walk(sw.node):
-        if isinstance(n, ast.Assign) and isinstance(n.value, ast.Name) and n.value.id in res_names:
-            t = n.targets[0]
-            if isinstance(t, ast.Name):
-                pick_names.add(t.id)
-            elif isinstance(t, ast.Tuple) and isinstance(t.elts[0], ast.Name):
-                pick_names.add(t.elts[0].id)
-    # S: the index array that restricts both X and y before the inner query
-    subs = {}
-    for n in ast.walk(sw.node):
-        if isinstance(n, ast.Assign) and isinstance(n.value, ast.Subscript) and isinstance(n.value.value, ast.Name) \
-                and n.value.value.id in (Xn, yn) and isinstance(n.value.slice, ast.Name):
-            subs.setdefault(n.value.slice.id, set()).add(n.value.value.id)
-    S = [k for k, v in subs.items() if v == {Xn, yn}]
-    report.add("R20.2", ent, "X and y are restricted by the same index array", f"{sw.file}:{sw.node.lineno}", len(S) == 1,
-               detail=f"restricting arrays: { {k: sorted(v) for k, v in subs.items()} }")
-    okx = False
-    if S:
-        xs = kw.get("X"), kw.get("y")
-        # the inner query receives the restricted X/y (or the originals on the other branch)
-        okx = all(isinstance(a, ast.Name) for a in xs)
-    tr1 = [n for n in ast.walk(sw.node) if S and isinstance(n, ast.Assign) and isinstance(n.targets[0], ast.Name)
-           and n.targets[0].id in pick_names and isinstance(n.value, ast.Subscript)
-           and isinstance(n.value.value, ast.Name) and n.value.value.id == S[0]
-           and isinstance(n.value.slice, ast.Name) and n.value.slice.id in pick_names]
-    g1 = False
-    for n in tr1:
-        ifs = [(owner, field) for (s_, owner, field, idx) in tree.ancestors(n) if isinstance(owner, ast.If)]
-        # guarded by the row-removal test and by nothing else (in particular
-        # not by whether utilities were requested)
-        if len(ifs) == 1 and ifs[0][1] == "body" and "exclude_non_subsample" in ast.unparse(ifs[0][0].test):
-            g1 = True
-    report.add("R20.2", ent, "picks translated through the restricting index array when rows were removed",
-               f"{sw.file}:{sw.node.lineno}", bool(tr1) and g1,
-               detail="picks = S[picks] under the exclude_non_subsample test" if (tr1 and g1) else
-               "the inner strategy's picks refer to the reduced X but are returned untranslated")
-    # feature-row candidates: positions drawn by choice translate the picks
-    drawn = set()
-    for n in ast.walk(sw.node):
-        if isinstance(n, ast.Assign) and isinstance(n.value, ast.Call) and c01.callname(n.value) == "choice":
-            drawn |= {t.id for t in n.targets if isinstance(t, ast.Name)}
-    tr2 = [n for n in ast.walk(sw.node) if isinstance(n, ast.Assign) and isinstance(n.value, ast.Subscript)
-           and isinstance(n.value.value, ast.Name) and n.value.value.id in drawn
-           and (names_in(n.value.slice) & pick_names)]
-    g2 = False
-    for n in tr2:
-        for (s_, owner, field, idx) in tree.ancestors(n):
-            if isinstance(owner, ast.If) and field == "body" and "ndim > 1" in ast.unparse(owner.test):
-                g2 = True
-    report.add("R20.2", ent, "feature-row candidates: picks translated through the drawn positions",
-               f"{sw.file}:{sw.node.lineno}", bool(tr2) and g2)
-    edges_sw = dep_edges(sw.node.body)
-    cand_kw = kw.get("candidates")
-    okf = all(isinstance(kw.get(k), ast.Name) and kw[k].id == k for k in ("batch_size", "return_utilities")) \
-        and isinstance(cand_kw, ast.Name) and bool(closure({cand_kw.id}, edges_sw) & drawn)
-    report.add("R20.2", ent, "inner query gets the drawn subset, the clipped batch size and return_utilities",
-               f"{sw.file}:{sw.node.lineno}", okf)
+    check_subsampling_translation(p, report, sw, ent, tree, "R20.2")
     # ---------------- R20.3
     sa = p.get_class("SingleAnnotatorWrapper")
     g = sa.methods.get("_get_order_preserving_s_query")
@@ -228,6 +154,84 @@ def run(p, report, tier):
                    f"{f.file}:{f.node.lineno}", not da.reports, detail="; ".join(da.reports), nontrivial=False)
     report.assumptions += ["numerical equality of wrapped and unwrapped utilities is not decided",
                            "joblib.Parallel returns results in submission order"]
+
+
+def check_subsampling_translation(p, report, sw, ent, tree, rule):
+    # ---- roles (recovered from dataflow, not from variable names)
+    Xn = yn = None
+    for n in ast.walk(sw.node):
+        if isinstance(n, ast.Assign) and isinstance(n.value, ast.Call) and c01.callname(n.value) == "_validate_data" \
+                and isinstance(n.targets[0], ast.Tuple) and len(n.targets[0].elts) >= 2:
+            Xn, yn = n.targets[0].elts[0].id, n.targets[0].elts[1].id
+    inner = [n for n in ast.walk(sw.node) if isinstance(n, ast.Call) and isinstance(n.func, ast.Attribute)
+             and n.func.attr == "query" and "query_strategy" in ast.unparse(n.func.value)]
+    if not inner or Xn is None:
+        raise AnalysisError("SubSamplingWrapper.query: inner query / validated inputs not found")
+    inner = inner[0]
+    kw = kwmap(inner)
+    # result of the inner query and the picked indices unpacked from it
+    res_names = set()
+    for n in ast.walk(sw.node):
+        if isinstance(n, ast.Assign) and n.value is inner:
+            res_names |= {t.id for t in n.targets if isinstance(t, ast.Name)}
+    pick_names = set(res_names)
+    for n in ast.walk(sw.node):
+        if isinstance(n, ast.Assign) and isinstance(n.value, ast.Name) and n.value.id in res_names:
+            t = n.targets[0]
+            if isinstance(t, ast.Name):
+                pick_names.add(t.id)
+            elif isinstance(t, ast.Tuple) and isinstance(t.elts[0], ast.Name):
+                pick_names.add(t.elts[0].id)
+    # S: the index array that restricts both X and y before the inner query
+    subs = {}
+    for n in ast.walk(sw.node):
+        if isinstance(n, ast.Assign) and isinstance(n.value, ast.Subscript) and isinstance(n.value.value, ast.Name) \
+                and n.value.value.id in (Xn, yn) and isinstance(n.value.slice, ast.Name):
+            subs.setdefault(n.value.slice.id, set()).add(n.value.value.id)
+    S = [k for k, v in subs.items() if v == {Xn, yn}]
+    report.add(rule, ent, "X and y are restricted by the same index array", f"{sw.file}:{sw.node.lineno}", len(S) == 1,
+               detail=f"restricting arrays: { {k: sorted(v) for k, v in subs.items()} }")
+    okx = False
+    if S:
+        xs = kw.get("X"), kw.get("y")
+        # the inner query receives the restricted X/y (or the originals on the other branch)
+        okx = all(isinstance(a, ast.Name) for a in xs)
+    tr1 = [n for n in ast.walk(sw.node) if S and isinstance(n, ast.Assign) and isinstance(n.targets[0], ast.Name)
+           and n.targets[0].id in pick_names and isinstance(n.value, ast.Subscript)
+           and isinstance(n.value.value, ast.Name) and n.value.value.id == S[0]
+           and isinstance(n.value.slice, ast.Name) and n.value.slice.id in pick_names]
+    g1 = False
+    for n in tr1:
+        ifs = [(owner, field) for (s_, owner, field, idx) in tree.ancestors(n) if isinstance(owner, ast.If)]
+        # guarded by the row-removal test and by nothing else (in particular
+        # not by whether utilities were requested)
+        if len(ifs) == 1 and ifs[0][1] == "body" and "exclude_non_subsample" in ast.unparse(ifs[0][0].test):
+            g1 = True
+    report.add(rule, ent, "picks translated through the restricting index array when rows were removed",
+               f"{sw.file}:{sw.node.lineno}", bool(tr1) and g1,
+               detail="picks = S[picks] under the exclude_non_subsample test" if (tr1 and g1) else
+               "the inner strategy's picks refer to the reduced X but are returned untranslated")
+    # feature-row candidates: positions drawn by choice translate the picks
+    drawn = set()
+    for n in ast.walk(sw.node):
+        if isinstance(n, ast.Assign) and isinstance(n.value, ast.Call) and c01.callname(n.value) == "choice":
+            drawn |= {t.id for t in n.targets if isinstance(t, ast.Name)}
+    tr2 = [n for n in ast.walk(sw.node) if isinstance(n, ast.Assign) and isinstance(n.value, ast.Subscript)
+           and isinstance(n.value.value, ast.Name) and n.value.value.id in drawn
+           and (names_in(n.value.slice) & pick_names)]
+    g2 = False
+    for n in tr2:
+        for (s_, owner, field, idx) in tree.ancestors(n):
+            if isinstance(owner, ast.If) and field == "body" and "ndim > 1" in ast.unparse(owner.test):
+                g2 = True
+    report.add(rule, ent, "feature-row candidates: picks translated through the drawn positions",
+               f"{sw.file}:{sw.node.lineno}", bool(tr2) and g2)
+    edges_sw = dep_edges(sw.node.body)
+    cand_kw = kw.get("candidates")
+    okf = all(isinstance(kw.get(k), ast.Name) and kw[k].id == k for k in ("batch_size", "return_utilities")) \
+        and isinstance(cand_kw, ast.Name) and bool(closure({cand_kw.id}, edges_sw) & drawn)
+    report.add(rule, ent, "inner query gets the drawn subset, the clipped batch size and return_utilities",
+               f"{sw.file}:{sw.node.lineno}", okf)
 
 
 def _before(tree, a, b):
